@@ -1,15 +1,18 @@
 #!/bin/bash
 # usage: tools/try_seed.sh <patch.diff> <tier> <prop> [<prop>...]
-# Applies a seeded change to /repo's working tree, runs the given checks, and ALWAYS restores /repo.
-# Prints one line per check:  <prop> exit=<code>  [first VIOLATION signature]
+# Applies a seeded change to the repository's working tree (/repo, or $GMRS_REPO inside an isolated copy made by
+# tools/reeval_isolated.sh), runs the given checks, and ALWAYS restores the tree.
+# Prints one line per check:  <prop> exit=<code>  [first VIOLATION signatures]
 set -u
-patch="$1"; tier="$2"; shift 2
-cd /repo || exit 9
-if ! git diff --quiet; then echo "REFUSING: /repo has uncommitted changes"; exit 9; fi
-restore() { git -C /repo checkout -- . ; }
+patch="$(readlink -f "$1")"; tier="$2"; shift 2
+REPO=${GMRS_REPO:-/repo}
+VROOT="$(cd "$(dirname "$0")/.." && pwd)"
+cd "$REPO" || exit 9
+if ! git diff --quiet; then echo "REFUSING: $REPO has uncommitted changes"; exit 9; fi
+restore() { git -C "$REPO" checkout -- . ; }
 trap restore EXIT
 if ! git apply --whitespace=nowarn "$patch"; then echo "PATCH DOES NOT APPLY: $patch"; exit 8; fi
-cd /verif
+cd "$VROOT"
 for p in "$@"; do
   out=$(./check "$p" "$tier" 2>&1); rc=$?
   sig=$(echo "$out" | grep -m3 "signature:" | sed 's/^ *signature: //' | tr '\n' '|' | cut -c1-300)
